@@ -997,8 +997,8 @@ reg('C10', frontprops.run_C10, ['Prop_C10.v'], 'abstract specifications (curated
     level_text="Proved in Coq for the lexer and parser models that are compared with Lex.go / Parser.go on every run: for every well-formed token document (identifiers, numbers, punctuation, %% marks, character literals, brace-balanced actions, directives; separated by any blanks, // comments and /* */ comments incl. star runs) lex (render d) = the tokens of d (C10_lexer_roundtrip); a token list that spells out a specification - %token/%left/%right/%nonassoc/%precedence/%type/%start/%union/%{ %} lines in any order with optional tags and numbers, rule groups with any number of alternatives, symbols, character literals, %prec annotations anywhere in an alternative, action bodies, each group closed by `;` or not - is parsed into spec_ast: the declaration lines in order, one rule per alternative in order with exactly its symbols, actions and %prec symbol, the literals first used in rules, the epilogue text (C10_parser_roundtrip: only kinds and values of tokens matter, the three-slot look-back buffer of Parser.go is modelled as it is); together: parse_text (render d) = the AST of the specification for every layout, and two layouts of the same tokens give the same result (C10_text_roundtrip, C10_layout_irrelevant, with a concrete grammar in two layouts as C10_text_roundtrip_example); the visitor keeps rules, symbols, %prec and actions in order as written (C10_rules_as_written). The tie to the Go code and to the property's specification-level reading is checked on every run by rendering random specifications under random layouts: the real front end's read-back is compared with the specification, renderings with each other, and lexer, parser and visitor models with the implementation's tokens, AST and identifier table.",
     level_note=MODEL_NOTE + ' Dialect restrictions are explicit in the generator and in the theorems (DESIGN 5.C10): brace-balanced action/union bodies, a literal never directly after a bare identifier in a %token line (it would be its alias: titems_ok), %type with a tag and at least one name, %union followed by blanks then { then white space; token aliases and the string-literal token kind are outside the specification language of the theorems (they are in the executable model and in the comparison).')
 reg('C11', frontprops.run_C11, ['Prop_C11.v'], 'declaration mixes: seeded random grammars with 3-9 terminals declared in every way (tagged/untagged %token lines, several per line, explicit numbers: small, > 255, negative, inside the range the automatic numbering walks through, re-declared in a second %token line, character literals declared / only in precedence lines / only in rules, aliases), distinct explicit numbers. Checked on the implementation: the verified checker Front.valid_codes (extracted) on the AST declarations and the final identifier table; emitted `const NAME = n` lines and the translate switch of both generated files (Go, TypeScript) against the grammar\'s terminals. non-trivial = mixes with both automatically numbered and explicitly numbered named tokens',
-    technique='Coq-verified checker (valid_codes_sound) run on the implementation\'s identifier table + emitted constants/translate parsed from both generated targets + Coq visitor model on the implementation AST',
-    level_text="Proved in Coq: any code table accepted by valid_codes keeps every fixed code, gives every other token a code outside the fixed codes and different from -1, and is duplicate-free when the fixed codes are (C11_checker_sound); the model of the visitor's numbering always produces a table that passes valid_codes (C11_codes_model, C11_codes). The extracted checker also runs on the implementation's own declarations and final table for every declaration mix; the emitted constants and the translate switch of the generated Go and TypeScript files are parsed and compared with the grammar's terminals (every named token has its constant, every code maps to its own symbol, -1 to the end marker, nothing else listed); the Coq visitor model is compared with the implementation on every AST.",
+    technique="Coq-verified checker (valid_codes_sound) + theorem that the visitor model's numbering always passes it + model of the translate switch with its specification + checker run on the implementation's identifier table + emitted constants/translate parsed from both generated targets + Coq visitor model on the implementation AST",
+    level_text="Proved in Coq: any code table accepted by valid_codes keeps every fixed code, gives every other token a code outside the fixed codes and different from -1, and is duplicate-free when the fixed codes are (C11_checker_sound); the model of the visitor's numbering always produces a table that passes valid_codes (C11_codes_model, C11_codes); the model of the generated translate switch maps, when the terminals' codes are pairwise different, every token code to its own grammar symbol, -1 to the end marker and every other integer to the error default (C11_translate, C11_translate_end_marker). The extracted checker also runs on the implementation's own declarations and final table for every declaration mix; the emitted constants and the translate switch of the generated Go and TypeScript files are parsed and compared with the grammar's terminals (every named token has its constant, every code maps to its own symbol, -1 to the end marker, nothing else listed); the Coq visitor model is compared with the implementation on every AST.",
     level_note=MODEL_NOTE)
 reg('C12', frontprops.run_C12, ['Prop_C12.v'], 'seeded random usable grammars with one planted defect each: undefined symbol anywhere in a right-hand side; nonterminal without terminal derivation through left recursion, right recursion, mutual recursion, two recursive rules, unreachable, at the start symbol; %type name without rule; %start without rule; and the accept side: productive only through an empty rule, productive through a chain of unit rules listed in the unfavourable order, no defect. Compared: refusal and its reason (from the panic text) with the planted defect, and with the Coq front-end model run on the implementation\'s AST. non-trivial = grammars that must be refused',
     technique='Coq theorem (the sweep-until-stable loop computes exactly the productive symbols) + planted-defect grammars through the real front end + Coq front-end model (visit, build_grammar) on the implementation AST',
